@@ -391,7 +391,7 @@ def case_line(case, events, variant='fixed', op='run', multi=None):
 
 
 def is_multi(case):
-    return len(set(case_apps(case))) > 1 or any(True for _ in ())
+    return len(set(case_apps(case))) > 1
 
 
 def answer(obs_by_thread, tids):
